@@ -17,6 +17,7 @@ package pkg
 
 import (
 	"fmt"
+	"math"
 	"math/rand"
 	"os"
 	"reflect"
@@ -597,6 +598,104 @@ func TestInterfaceKeysHoldingStructs(t *testing.T) {
 }
 
 
+// map[float64]int64 with NaN keys (every insertion of a NaN creates a new entry, told
+// apart here by its value), +0/-0 (one key) and ordinary floats, iterated while the
+// table is at every stage of a doubling grow and WRITTEN during the loop (so that old
+// buckets are evacuated behind and ahead of the iterator). Go spec: every entry present
+// for the whole loop is produced exactly once, no entry twice, nothing that is not in
+// the map; lookups of NaN fail; len counts every NaN entry.
+func TestNaNKeysIterationDuringGrowth(t *testing.T) {
+	mt := mkMapType(reflect.TypeOf(float64(0)), reflect.TypeOf(int64(0)))
+	rng := rand.New(rand.NewSource(12))
+	nan := math.NaN()
+	key := func(f float64) unsafe.Pointer { p := new(float64); *p = f; return unsafe.Pointer(p) }
+	for n := 1; n <= 140; n++ {
+		for variant := 0; variant < 3; variant++ {
+			h := MakeMap(mt, 0)
+			live := map[int64]float64{} // value id -> key, for all entries
+			next := int64(1)
+			put := func(f float64) {
+				if f == f {
+					if p, ok := MapAccess2(mt, h, key(f)); ok {
+						delete(live, *(*int64)(p))
+					}
+				}
+				*(*int64)(MapAssign(mt, h, key(f))) = next
+				live[next] = f
+				next++
+			}
+			for i := 0; i < n; i++ {
+				switch {
+				case variant == 0 || i%3 != 0:
+					put(nan)
+				default:
+					put(float64(i))
+				}
+			}
+			put(0.0)
+			put(math.Copysign(0, -1)) // same key as +0: replaces it
+			if got := MapLen(h); got != len(live) {
+				fmt.Printf("ZZFAIL map[float64]int64 with NaN keys, n=%d variant=%d: len = %d, want %d\n", n, variant, got, len(live))
+				t.Fatalf("len = %d, want %d", got, len(live))
+			}
+			if _, ok := MapAccess2(mt, h, key(nan)); ok {
+				fmt.Printf("ZZFAIL map[float64]int64, n=%d: lookup of NaN succeeded\n", n)
+				t.Fatal("lookup of NaN succeeded")
+			}
+			atStart := map[int64]bool{}
+			for id := range live {
+				atStart[id] = true
+			}
+			seen := map[int64]int{}
+			it := NewMapIter(mt, h)
+			step := 0
+			for {
+				ok, kp, vp := MapIterNext(it)
+				if !ok {
+					break
+				}
+				id := *(*int64)(vp)
+				k := *(*float64)(kp)
+				seen[id]++
+				want, present := live[id]
+				if !present || (want == want && want != k) || (want != want && k == k) {
+					fmt.Printf("ZZFAIL map[float64]int64 with NaN keys, n=%d variant=%d: range produced %v:%d which is not in the map\n", n, variant, k, id)
+					t.Fatalf("range produced %v:%d which is not in the map", k, id)
+				}
+				if seen[id] > 1 {
+					fmt.Printf("ZZFAIL map[float64]int64 with NaN keys, n=%d variant=%d: range produced entry %v:%d twice (write during the loop while the table grows)\n", n, variant, k, id)
+					t.Fatalf("range produced entry %v:%d twice", k, id)
+				}
+				// a write in the loop body: each of these makes the map evacuate old buckets
+				switch (step + variant) % 3 {
+				case 0:
+					MapDelete(mt, h, key(-12345.5)) // absent key
+				case 1:
+					if variant == 2 && rng.Intn(4) == 0 {
+						put(nan) // a new entry: may or may not be produced
+					} else {
+						MapDelete(mt, h, key(-777.25))
+					}
+				case 2:
+					// overwrite an existing ordinary key in place (same id kept for the oracle)
+					if p, ok := MapAccess2(mt, h, key(0)); ok {
+						id0 := *(*int64)(p)
+						*(*int64)(MapAssign(mt, h, key(0))) = id0
+					}
+				}
+				step++
+			}
+			for id := range atStart {
+				if _, still := live[id]; still && seen[id] != 1 {
+					fmt.Printf("ZZFAIL map[float64]int64 with NaN keys, n=%d variant=%d: entry %v:%d was present for the whole loop but produced %d times\n", n, variant, live[id], id, seen[id])
+					t.Fatalf("entry %v:%d present for the whole loop, produced %d times", live[id], id, seen[id])
+				}
+			}
+		}
+	}
+}
+
+
 // TestZZVerifMapKeyKinds: entry point of the bounded check (BOUNDED stand-in,
 // labelled bounded, never counted as proved): runs every differential scenario
 // of this file as a subtest and reports the counts in the harness format.
@@ -616,6 +715,7 @@ func TestZZVerifMapKeyKinds(t *testing.T) {
 		{"StructKeyBlankField", TestStructKeyBlankField},
 		{"SameKeyTwice", TestSameKeyTwice},
 		{"InterfaceKeysHoldingStructs", TestInterfaceKeysHoldingStructs},
+		{"NaNKeysIterationDuringGrowth", TestNaNKeysIterationDuringGrowth},
 	}
 	bad := 0
 	for _, s := range scen {
